@@ -687,7 +687,7 @@ func domainWalk(c *Ctx, r *RuleResult, fn *ssa.Function, P *Prover, cb ssa.Value
 			}
 			Q := NewProver(c, callee)
 			// integer parameters of the helper whose argument is provably <= n at the call
-			var bounded []ssa.Value
+			var bounded, strict []ssa.Value
 			var cbIn []ssa.Value
 			for k, a := range x.Call.Args {
 				if k >= len(callee.Params) {
@@ -700,11 +700,19 @@ func domainWalk(c *Ctx, r *RuleResult, fn *ssa.Function, P *Prover, cb ssa.Value
 				if isInt(a.Type()) && below(P.poly(a).add(constP(-1), 1), x.Block()) {
 					bounded = append(bounded, callee.Params[k])
 				}
+				if isInt(a.Type()) && below(P.poly(a), x.Block()) {
+					strict = append(strict, callee.Params[k]) // the argument itself is a valid row: < n
+				}
 			}
 			for _, cp := range cbIn {
 				domainWalk(c, r, callee, Q, cp, cp.Name(), nName, func(i Poly, b *ssa.BasicBlock) bool {
 					for _, bp := range bounded {
 						if Q.Prove(i.add(Q.poly(bp), -1).add(constP(1), 1), b) {
+							return true
+						}
+					}
+					for _, sp := range strict {
+						if Q.Prove(i.add(Q.poly(sp), -1), b) {
 							return true
 						}
 					}
